@@ -295,3 +295,17 @@ Fixpoint mem_run (c : memcur) (ms : list move) : list obs :=
   | [] => []
   | m :: ms' => let c' := mem_move m c in obs_of (mem_get c') :: mem_run c' ms'
   end.
+
+(* number of additions (by this and by other sessions) during a walk *)
+Fixpoint evcount (w : list step) : nat :=
+  match w with
+  | [] => O
+  | (evs, _) :: w' => (length evs + evcount w')%nat
+  end.
+
+(* the session's view when the cursor is created: the commands in the database
+   when the session started (all numbered below the frozen upper bound), then
+   the session's own commands so far *)
+Definition session_view (pre : list op) (mid : list ev) : list hcmd :=
+  let db0 := spec_exec isort_desc (spec_init 0) pre in
+  map out_cmd (s_log db0) ++ snd (fold_left apply_ev mid (db0, [])).
